@@ -3022,10 +3022,17 @@ void Analyser::AnalyserImpl::analyseModel(const ModelPtr &model)
     // state is retrieved), so it cannot be used by another equation.
 
     for (const auto &internalEquation : mInternalEquations) {
+        // An equation that only computes external variables is itself going to
+        // be discarded (e.g., the ODE of the state or an equation that computes
+        // a variable that has also been marked as external).
+
+        if (!internalEquation->mUnknownVariables.empty()
+            && std::all_of(internalEquation->mUnknownVariables.begin(), internalEquation->mUnknownVariables.end(), isExternalVariable)) {
+            continue;
+        }
+
         for (const auto &odeVariable : internalEquation->mAllOdeVariables) {
-            if (odeVariable->mIsExternal
-                && ((internalEquation->mUnknownVariables.size() != 1)
-                    || (internalEquation->mUnknownVariables.front() != odeVariable))) {
+            if (odeVariable->mIsExternal) {
                 auto issue = Issue::IssueImpl::create();
                 auto realVariable = odeVariable->mVariable;
 
